@@ -239,6 +239,19 @@ def _r2_order(ctx, chk, rule, f):
                           expected="unconditional call", found="a path around `%s`" % norm_stmt(ctx.cfg(raw).stmt_of(rci[0]))[:80], construct="main check_input call")
             return
     ci = C02.calls_of(f, "check_input")
+    if not ci:
+        # the validation may be reached through a helper / a method of a parameter record (`options.check()`): the one call of
+        # main() that leads to check_input stands for it
+        target = ctx.prog.funcs.get(GEN + "::check_input")
+        proxies = [call for call, callees in ctx.cg.call_sites(f) if target is not None and any(target in ctx.cg.reachable([h_]) for h_ in callees)]
+        dyn = [call for call, callees in ctx.cg.call_sites(f) if not callees and isinstance(call.func, ast.Attribute) and isinstance(call.func.value, ast.Name)
+               and any(call.func.attr in c_.methods and target in ctx.cg.reachable([c_.methods[call.func.attr]]) for c_ in ctx.prog.classes.values())]
+        proxies = proxies or dyn
+        if len(proxies) == 1:
+            ci = proxies
+        elif proxies:
+            chk.undecided(rule, f.where(), "check_input is reached through %d calls of main(): which one validates is not resolved" % len(proxies))
+            return
     if len(ci) != 1 or not cfg.on_every_normal_path(ci[0]):
         chk.violation(rule, f.where(), "check_input is not called exactly once on every path through main()", expected="unconditional call", found="%d call(s)" % len(ci),
                       construct="main check_input call")
@@ -304,6 +317,21 @@ def _r2_order(ctx, chk, rule, f):
     else:
         args = call_t[0][2][2]
         kws = dict(call_t[0][2][3])
+        # check_input(*values): a display is spelled out, anything else is not followed
+        if any(a_[0] == "star" for a_ in args):
+            flat = []
+            for a_ in args:
+                if a_[0] == "star" and a_[1][0] in ("tup", "list"):
+                    flat.extend(a_[1][1])
+                elif a_[0] == "star":
+                    flat = None
+                    break
+                else:
+                    flat.append(a_)
+            if flat is None:
+                chk.undecided(rule, f.where(), "check_input receives `%s`: an unpacked sequence that is not resolved to the parsed arguments" % show(call_t[0][2])[:100])
+                return
+            args = tuple(flat)
         bad, unknown = [], []
         for i, p in enumerate(g.params):
             a = args[i] if i < len(args) else kws.get(p)
@@ -684,6 +712,22 @@ def table_cells(sx, name, rows_src, cols_src):
                         if fo.kind == "COLLECT" and Li.filter == TRUE and not Li.has_break and Li.cont == FALSE and getattr(fo, "own_filter", None) in (None, TRUE):
                             return "ok", fo.term
                         return None, "a row is filled through `%s` in a way that is not `width` unconditional appends" % r
+                # the rows are anonymous fresh lists, reachable only through the table: when nothing in the row loop touches the
+                # table except that append, the rows stay empty
+                touched = 0
+
+                def _count(effs):
+                    nonlocal touched
+                    for e in effs:
+                        if e[1] == "loop":
+                            _count(sx.loops[e[2]].effects)
+                        elif any(t == acc or (t[0] == "acc" and t[2] == name) or t == ("v", name) for t in C02._sub(tuple(x for x in e[1:] if isinstance(x, tuple)))):
+                            touched += 1
+                _count(Lo.effects)
+                import ast as _ast2
+                syntactic = [n for n in _ast2.walk(Lo.node) if isinstance(n, _ast2.Name) and n.id == name]
+                if touched == 0 and len(syntactic) == 1:
+                    return "bad", "every row of `%s` is appended empty and never filled" % name
                 return None, "no append to %s[i] per column recognised" % name
             if len(cells) != 1:
                 return "bad", "%d appends to %s[i] per column" % (len(cells), name)
@@ -706,11 +750,20 @@ def table_cells(sx, name, rows_src, cols_src):
                 return "bad", "a row is not `width` unconditional appends (%s)" % (fo,)
             if row[0] == "compr":
                 Li = sx.loops[row[1]]
-                if Li.source != cols_src:
-                    return "bad", "columns come from `%s`" % show(Li.source)
                 if Li.filters:
                     return "bad", "row comprehension is filtered"
-                return "ok", Li.elt
+                if Li.source == cols_src:
+                    return "ok", Li.elt
+                # a projection of a per-column list built just before: `tiles = [draw() for _ in range(width)]; [r for r, _ in tiles]`
+                if Li.source[0] == "compr" and Li.source[1] in sx.loops:
+                    Lc = sx.loops[Li.source[1]]
+                    if Lc.source == cols_src and not Lc.filters and Lc.ckind == "list" and Lc.whole:
+                        from ..symx import subst, deep_simp
+                        el = ("elem", Li.id)
+                        return "ok", deep_simp(subst(Li.elt, lambda x: Lc.elt if x == el else None))
+                if Li.source[0] == "call" and Li.source[1] == "range":
+                    return "bad", "columns come from `%s`" % show(Li.source)
+                return None, "columns come from `%s`" % show(Li.source)[:60]
             return None, "row value `%s`" % show(row)[:80]
     return None, "no row loop over `%s` filling `%s`" % (show(rows_src), name)
 
